@@ -105,7 +105,13 @@ def _run_job(job):
             rec = stubs.fix_record(ex, r.model, model_record(ex, r.model, job['harness'], job['params']))
         results.append({'kind': obl.kind, 'label': obl.label, 'pos': obl.pos, 'verdict': r.verdict, 'detail': r.detail,
                         't': round(r.t, 4), 'queries': r.queries, 'record': rec})
-    if any(x['verdict'] not in ('unsat', 'reach-ok') for x in results):
+    if opts.get('fdiv_candidates'):
+        from discharge import zero_divisor_candidates
+        top = ex.obls[-1].pc if ex.obls else ()
+        for m in zero_divisor_candidates(ex, d, top):
+            results.append({'kind': 'candidate', 'label': 'input with a zero float divisor (IEEE Inf/NaN slice)', 'pos': '', 'verdict': 'sat-candidate',
+                            'detail': '', 't': 0.0, 'queries': 0, 'record': model_record(ex, m, job['harness'], job['params'])})
+    if any(x['verdict'] not in ('unsat', 'reach-ok', 'sat-candidate') for x in results):
         for m in ex.candidates:
             results.append({'kind': 'candidate', 'label': 'witness of an unpinned value', 'pos': '', 'verdict': 'sat-candidate', 'detail': '',
                             't': 0.0, 'queries': 0, 'record': model_record(ex, m, job['harness'], job['params'])})
